@@ -283,3 +283,73 @@ def c20(prop, tier, t0):
 def c18(prop, tier, t0):
     import c18 as _c18
     return _c18.run(prop, tier, t0)
+
+
+# ------------------------------------------------------------------ Engine B (controlled scheduler)
+def engb_run(prop, tier, harness, files, bound, extra_args=(), fakes=(), sysroot=False, mapall=(), access=(), budget="40s"):
+    t_i = __import__("time").time()
+    rep = vlib.instrument(harness, files, sysroot=sysroot, mapall=mapall, access=access)
+    ov = vlib.make_overlay(harness, extra=rep, fakes=fakes)
+    binary, bt = vlib.build(harness, tag=harness, overlay=ov)
+    # engine self-test (channel-model conformance + known answers) is part of every Engine-B check
+    st, _ = vlib.build("vschedtest")
+    d = tempfile.mkdtemp(prefix="vres_", dir=vlib.BUILD)
+    try:
+        sres = os.path.join(d, "selftest.json")
+        p = vlib.run([st, "-out", sres, "-len", "5" if tier == "quick" else "6"], check=False)
+        if p.returncode != 0:
+            raise vlib.Infra("vsched self-test failed: " + p.stdout[-2000:])
+        import json as _json
+        selftest = _json.load(open(sres))["counters"]
+    finally:
+        _shutil.rmtree(d, ignore_errors=True)
+    t_b = __import__("time").time()
+    # one process per (scenario, shard): state-fingerprint pruning works best unsharded, so few shards per scenario
+    names = [l.split(" ", 1) for l in vlib.run([binary, "-tier", tier, "-list"]).stdout.strip().splitlines() if l.strip()]
+    k = max(1, min(4, vlib.NCPU // max(1, len(names))))
+    d = tempfile.mkdtemp(prefix="vres_", dir=vlib.BUILD)
+    jobs = []
+    for idx, _n in names:
+        for sh in range(k):
+            res = os.path.join(d, "r%s_%d.json" % (idx, sh))
+            jobs.append(([binary, "-out", res, "-tier", tier, "-scenario", idx, "-shard", str(sh), "-nshards", str(k), "-bound", str(bound), "-budget", budget] + list(extra_args), res))
+    try:
+        m = vlib.merge(vlib.run_jobs(jobs, timeout=7200))
+    finally:
+        _shutil.rmtree(d, ignore_errors=True)
+    c = m["counters"]
+    cov = {
+        "states": int(c.get("states", 0)), "transitions": int(c.get("transitions", 0)),
+        "traces_validated_against_impl": int(c.get("executions", 0)),
+        "executions": int(c.get("executions", 0)), "scenarios": len(names), "shards_per_scenario": k,
+        "preemption_bound": bound, "distinct_terminal_observations": len(m["distinct_keys"]),
+        "schedule_replay_checks": int(c.get("replay_checks", 0)),
+        "channel_model_conformance_sequences": int(selftest.get("conformance_sequences", 0)),
+        "engine_known_answer_executions": int(selftest.get("known_answer_executions", 0)),
+        "instrument_and_build_s": round(t_b - t_i, 1),
+    }
+    for k, v in c.items():
+        if k not in cov and not k.startswith("violations:") and k not in ("evaluations", "replay_checks"):
+            cov[k] = int(v)
+    return m, cov
+
+
+ENGB_ASSUME = [
+    "interleavings are explored at the granularity of synchronisation operations (channel send/receive/select/close, mutex lock, wait-group wait, cancel, sleep/timer, goroutine start) with sequentially consistent memory; Unlock/Done/Add/go are not separate scheduling points (they commute with everything except the operation they enable)",
+    "all schedules with at most the stated number of preemptions are enumerated (each execution runs to completion); schedules needing more preemptions are outside the bound",
+    "channels are modelled inside the scheduler; the model is validated against native Go channels for every operation sequence up to length 5/6 on capacities 0-2 in the same run",
+    "the code under test is the CURRENT working tree, rewritten by /verif/tools/instr (type-directed source-to-source); 'traces_validated_against_impl' counts executions because every explored schedule IS an execution of the real (instrumented) code",
+]
+
+
+@check("C15")
+def c15(prop, tier, t0):
+    bound = 2 if tier == "quick" else 3
+    m, cov = engb_run(prop, tier, "c15", ["internal/pkg/utils/fan.go", "internal/pkg/midi/process.go"], bound,
+                      budget="40s" if tier == "quick" else "600s")
+    cov["explanation"] = ("real DynamicFanOut + ProcessMidiEvents under the controlled scheduler: R-out (2-3 emitters -> relay -> port), R-in/F (port -> relay -> fan-out -> always-attached device B and device A "
+                          "attached/detached at arbitrary moments), F-stalled (A never reads), F-churn (two attachments); channel capacities 0/1/2; oracle on the totally ordered observation trace")
+    return vlib.finish(prop, tier, "model_checking", m, cov, ENGB_ASSUME + [
+        "channel capacities 0-2 instead of 8 so that blocking states are reachable within the bound; 2-4 messages, 2-3 emitters, one device attached/detached once or twice",
+        "relay shutdown (context cancellation) is applied only after quiescence",
+    ], t0)
